@@ -236,7 +236,7 @@ def check_roles(prop, tier, seed):
         work.cleanup()
 
 
-T_MON["C20"] = ["M_Answered", "M_StillLive", "M_NoMetricPanic", "M_Validated", "M_MetricLabelsConsistent"]
+T_MON["C20"] = ["M_Answered", "M_StillLive", "M_NoMetricPanic", "M_Validated", "M_MetricLabelsConsistent", "M_MetricLookupIsSpec"]
 T_MODULE["C20"] = "TraceRequests.tla"
 
 
@@ -292,6 +292,25 @@ def check_requests(prop, tier, seed):
             cov["replay"].append(dict(engine=eng, requests=rr["behaviours"], metric_names_emitted=rr["metric_names"]))
         cov["samples"] = [json.loads(x) for x in reqs[:3]]
         log("reqrun: %s" % cov["replay"])
+        # the metric registry under concurrent first use: schedules of MetricsReg.tla on the real Prometheus client
+        mcfg = dict(Threads={"t1", "t2", "t3"}, DoubleCheck=True, GenHist=False)
+        r = tlc(work, "MetricsReg.tla", simple_cfg(mcfg, ["RegisteredOnce"], view=False), timeout=600, name="mcmreg")
+        if r["violated"] or not r.get("ok"):
+            raise Undecided("TLC on MetricsReg.tla: %s %s" % (r["violated"], r["error"]))
+        cov["states"] += r["distinct"]; cov["transitions"] += r["states"]
+        cov["mc_runs"].append(dict(module="MetricsReg.tla", config="3 goroutines emit one unknown metric; lookup / create with the second lookup under the write lock",
+                                   distinct_states=r["distinct"], states_generated=r["states"], invariants=["RegisteredOnce"]))
+        rn = tlc(work, "MetricsReg.tla", simple_cfg(dict(mcfg, DoubleCheck=False), ["RegisteredOnce"], view=False), timeout=600, name="mcmreg2")
+        cov["mc_runs"].append(dict(module="MetricsReg.tla", config="same without the second lookup", counterexample_found=bool(rn["violated"])))
+        g = tlc(work, "MetricsReg.tla", simple_cfg(dict(mcfg, GenHist=True), ["Dump"], view=False), workers=1, timeout=600, name="genmreg")
+        mb = parse_behaviours(g["outfile"])
+        if not mb:
+            raise Undecided("no metric registry schedules generated")
+        mrep, mtr, _ = seqrun(work, binp, mb, "memkv", 1, [], cmd="metricsrun", name="metricsrun")
+        cov["evaluations"] += mrep.get("behaviours", 0); cov["distinct_nontrivial"] += mrep.get("nontrivial", 0)
+        cov["replay"].append(dict(what="schedules of MetricsReg.tla (counter, gauge, histogram) on the real Prometheus client through the metrics.miss yield point",
+                                  runs=mrep.get("behaviours", 0), not_executable=mrep.get("obs_mismatch", 0)))
+        traces += mtr
         ntr, v = validate_all(work, traces, T_MON[prop], module="TraceRequests.tla", chunks=len(traces))
         cov["traces_validated_against_impl"] = ntr
         if v:
